@@ -1,6 +1,6 @@
 (* C09 -- environment variables round-trip exactly (subshell isolation is decided end-to-end, see DESIGN.md).
    Property theorems only; proofs are in ProofC09.v. *)
-From TV Require Import Base Utf8 Utf8Lemmas Regex Channel ChannelLemmas Hush Session ProofSession ProofC19 Sh ProofC01 ProofC09 ProofEnvUtf8 Subshell ProofC09b ProofC04b ProofC18c ProofInit ProofC09c.
+From TV Require Import Base Utf8 Utf8Lemmas Regex Channel ChannelLemmas Hush Session ProofSession ProofC19 Sh ProofC01 ProofC09 ProofEnvUtf8 Subshell ProofC09b ProofC04b ProofC18c ProofInit ProofC09c ProofInitRetry ProofC09d ProofC09e.
 
 (* (1) the line env(var, value) sends is read by the shell as  export NAME=VALUE  with exactly the value:
        for all names and values without NUL (leading dashes, backslashes, quotes, $, globs, newlines, blanks ...) *)
@@ -114,3 +114,69 @@ Theorem C09_subshell_enter_ok :
              insync c' /\ prompt c' = Some (SLit TBOT_PROMPT) /\ blacklist c' = bl.
 Proof. exact subshell_enter_ok. Qed.
 Print Assumptions C09_subshell_enter_ok.
+
+(* (8) the same when the inner shell is slow to come up: the first probe - and any number of further ones - go
+       unanswered (what the console prints during each wait arrives within that wait and lacks the answer: e.g. the
+       echo of the spawn command and start-up messages), then a probe is answered within its 3 s wait; the machine
+       still ends up in sync with the inner shell, for EVERY fragmentation and timing of every reaction *)
+Theorem C09_subshell_enter_ok_after_retries :
+  forall fuel tmo bl cfg spawn c (st_spawn s1 : stage) (r : list stage)
+         (st0 st_ps1 : stage) (stgs : list stage) (st_san : stage) a noise1,
+  insync c -> slow c = None -> (0 < tmo)%Z ->
+  wf_pend st_spawn -> any_in (blacklist c) (spawn ++ [CR]) = false ->
+  any_in (blacklist c) (PROBE ++ [CR]) = false ->
+  wf_pend s1 -> within (Some tmo) st_spawn -> within (Some tmo) s1 ->
+  contains PROBE_ANSWER (cat st_spawn ++ cat s1) = false ->
+  silent_rounds 3072%Z r -> wf_pend st0 ->
+  find_sub PROBE_ANSWER (cat st0) = Some a ->
+  a + length PROBE_ANSWER <= ready_before 3072%Z st0 ->
+  S (length r) < fuel ->
+  any_in bl (PS1_LINE ++ [CR]) = false ->
+  Forall (fun l => any_in bl (l ++ [CR]) = false) cfg ->
+  any_in bl (SANITY ++ [CR]) = false ->
+  wf_pend st_ps1 -> cat st_ps1 = noise1 ++ TBOT_PROMPT ->
+  prompt_only_at_end TBOT_PROMPT (skipn (a + length PROBE_ANSWER) (cat st0) ++ noise1) ->
+  Forall2 (fun l stg => wf_pend stg /\ exists noise, cat stg = noise ++ TBOT_PROMPT /\ prompt_only_at_end TBOT_PROMPT noise) cfg stgs ->
+  wf_pend st_san -> cat st_san = tty_echo false (SANITY ++ [CR]) ++ onlcr SANITY_ANSWER ++ TBOT_PROMPT ->
+  exists c', subshell_enter fuel tmo bl PS1_LINE cfg spawn (st_spawn :: s1 :: r ++ st0 :: st_ps1 :: stgs ++ [st_san]) c = (IOk, c', []) /\
+             insync c' /\ prompt c' = Some (SLit TBOT_PROMPT) /\ blacklist c' = bl.
+Proof. exact subshell_enter_ok_after_retries. Qed.
+Print Assumptions C09_subshell_enter_ok_after_retries.
+
+(* (9) a whole `with m.subshell(): m.exec(...)` session: entering, one command inside, leaving.  For every
+       fragmentation and timing of every reaction the command's output and status are exact, its arguments reach the
+       inner shell as given, and after `exit` the machine is in sync with the outer shell again, having written exactly
+       the command line, `echo $?` and `exit` after the initialisation *)
+Theorem C09_subshell_session_exact :
+  forall fuel tmo bl cfg spawn c (st_spawn st0 st_ps1 : stage) (stgs : list stage) (st_san : stage) a noise1
+         args (st1 st2 st_exit : stage) out ds noise_exit,
+  insync c -> slow c = None -> (0 < tmo)%Z ->
+  wf_pend st_spawn -> any_in (blacklist c) (spawn ++ [CR]) = false ->
+  wf_pend st0 -> any_in (blacklist c) (PROBE ++ [CR]) = false ->
+  find_sub PROBE_ANSWER (cat st_spawn ++ cat st0) = Some a ->
+  a + length PROBE_ANSWER <= ready (Some (now (io c) + tmo)%Z) (shift (now (io c)) st_spawn ++ shift (now (io c)) st0) ->
+  any_in bl (PS1_LINE ++ [CR]) = false ->
+  Forall (fun l => any_in bl (l ++ [CR]) = false) cfg ->
+  any_in bl (SANITY ++ [CR]) = false ->
+  wf_pend st_ps1 -> cat st_ps1 = noise1 ++ TBOT_PROMPT ->
+  prompt_only_at_end TBOT_PROMPT (skipn (a + length PROBE_ANSWER) (cat st_spawn ++ cat st0) ++ noise1) ->
+  Forall2 (fun l stg => wf_pend stg /\ exists noise, cat stg = noise ++ TBOT_PROMPT /\ prompt_only_at_end TBOT_PROMPT noise) cfg stgs ->
+  wf_pend st_san -> cat st_san = tty_echo false (SANITY ++ [CR]) ++ onlcr SANITY_ANSWER ++ TBOT_PROMPT ->
+  Forall nonul args ->
+  any_in bl (utf8_enc (sh_escape args) ++ [CR]) = false ->
+  any_in bl (ECHO_Q ++ [CR]) = false ->
+  wf_pend st1 -> cat st1 = tty_echo false (utf8_enc (sh_escape args) ++ [CR]) ++ onlcr out ++ TBOT_PROMPT ->
+  prompt_only_at_end TBOT_PROMPT (onlcr out) ->
+  wf_pend st2 -> cat st2 = tty_echo false (ECHO_Q ++ [CR]) ++ (ds ++ [CR; LF]) ++ TBOT_PROMPT ->
+  all_digits ds -> ds <> [] -> prompt_only_at_end TBOT_PROMPT (ds ++ [CR; LF]) ->
+  any_in bl (EXIT_CMD ++ [CR]) = false ->
+  wf_pend st_exit -> cat st_exit = noise_exit ++ TBOT_PROMPT -> prompt_only_at_end TBOT_PROMPT noise_exit ->
+  exists c1 c2 c3,
+    subshell_enter (S fuel) tmo bl PS1_LINE cfg spawn (st_spawn :: st0 :: st_ps1 :: stgs ++ [st_san]) c = (IOk, c1, []) /\
+    lx_exec args [st1; st2] c1 = (XOk (dec_val ds) (text (onlcr out)), c2, []) /\
+    subshell_leave [st_exit] c2 = (IOk, c3, []) /\
+    insync c3 /\ prompt c3 = Some (SLit TBOT_PROMPT) /\
+    wr (io c3) = wr (io c1) ++ (utf8_enc (sh_escape args) ++ [CR]) ++ (ECHO_Q ++ [CR]) ++ (EXIT_CMD ++ [CR]) /\
+    sh_words (utf8_enc (sh_escape args)) = Some (map utf8_enc args).
+Proof. exact subshell_session_exact. Qed.
+Print Assumptions C09_subshell_session_exact.
